@@ -40,12 +40,13 @@ type liveOpts struct {
 	syncOut, syncErr io.Writer // ClientConfig.SyncStdout / SyncStderr
 	tlsAuto          bool
 	badLines         string // not a plugin: writes this to stdout instead of serving, then lives on
+	realStdout       []byte // written to the process's real stdout right after the handshake line
 }
 
 func newLive(x *vs.Exec, o liveOpts) *liveClient {
 	lc := &liveClient{proto: o.proto, block: make(chan struct{})}
 	var ps plugin.PluginSet
-	so := serveOpts{exitDelay: o.exitDelay, ignoreQuit: o.ignoreQuit, onExit: o.onExit, preLine: o.preLine, stdout: o.pStdout, stderr: o.pStderr}
+	so := serveOpts{exitDelay: o.exitDelay, ignoreQuit: o.ignoreQuit, onExit: o.onExit, preLine: o.preLine, stdout: o.pStdout, stderr: o.pStderr, realStdout: o.realStdout}
 	if o.proto == "netrpc" {
 		lc.rp = &tagRPCPlugin{mk: func() *tagRPCServer { return &tagRPCServer{tag: "obj", block: lc.block} }}
 		ps = plugin.PluginSet{"p": lc.rp}
